@@ -171,6 +171,16 @@ Theorem C07_shallow_silent : forall bshape src dst to_send tbs commons objs d' t
 Proof. exact shallow_silent. Qed.
 Print Assumptions C07_shallow_silent.
 
+(** Transit damage: a packfile that ends strictly inside one of its objects (cut_pack j true: the
+    reader fails at object j) is REJECTED by Receive, in the state reached after the objects
+    before it: nothing of the cut object and nothing after it is stored, and no success is
+    reported.  (A cut at an object boundary is a legitimately shorter packfile: cut_pack j false.) *)
+Theorem C07_truncated_object_rejected : forall bshape d pack j o,
+  nth_error pack j = Some o ->
+  recv_all bshape d (cut_pack j true pack) = RErr (rstate (recv_all bshape d (firstn j pack))).
+Proof. exact cut_inside_rejected. Qed.
+Print Assumptions C07_truncated_object_rejected.
+
 (** Non-vacuity: two commits whose two-block tables share their first block, size limit 1
     (seven packfiles of one object), empty destination. *)
 Theorem C07_nonvacuous :
